@@ -139,7 +139,7 @@ def minimise(prop, v, seed, tier, scratch, budget=40):
 
 
 def write_replay(prop, seed, n, doc):
-    d = os.path.join(VERIF_DIR, 'replays')
+    d = os.environ.get('VERIF_REPLAY_DIR') or os.path.join(VERIF_DIR, 'replays')
     os.makedirs(d, exist_ok=True)
     path = os.path.join(d, '%s-%d-%d.json' % (prop, seed, n))
     with open(path, 'w', encoding='utf-8') as f:
